@@ -414,6 +414,14 @@ class Interp:
         return _Frame(self, _ChainEnv({}, _ClassEnv()), owner.file, owner.module, None)
 
     def eval_class_attr(self, owner, node):
+        # a class-level container literal is ONE object shared by every instance for the life of the program (of this
+        # interpreter): an entry stored through one instance is seen through the next
+        if isinstance(node, (ast.Dict, ast.List, ast.Set)):
+            memo = self.__dict__.setdefault("_class_literals", {})
+            key = (owner.qualname, id(node))
+            if key not in memo:
+                memo[key] = self.class_frame(owner, node).ev(node)
+            return memo[key]
         return self.class_frame(owner, node).ev(node)
 
     # ------------------------------------------------------------------
